@@ -330,6 +330,11 @@ func c11Provision(c *Ctx, r *Report, rule string) {
 					continue
 				}
 				if failed {
+					// Cleanup runs also after a failed Provision and releases one table entry per peer the upstream
+					// holds: the upstream holds exactly as many peers as references were taken
+					if ps := p.Heap["u.peers"]; ps.Len != nil && ps.Len.Known && ps.Len.N != int64(len(want)) {
+						problems = append(problems, fmt.Sprintf("after a provisioning that failed with %d table reference(s) taken the upstream holds %d peers: Cleanup releases one entry per peer - entries this upstream never took belong to the running configuration, whose peers then leave the table while in use (the next configuration starts them with fresh counters)", len(want), ps.Len.N))
+					}
 					continue
 				}
 				okPaths++
